@@ -54,6 +54,16 @@ def gen_case(rnd, boot_in_run=False, max_cmds=6):
             if c["when"][0] == "bytes":
                 c["when"] = ("start",)
     n = len(cmds)
+    triggers = {c["when"][1] for c in cmds if c["when"][0] in ("fire", "line")}
+    cancels = []
+    for i, c in enumerate(cmds):
+        if i in triggers:
+            continue
+        r = rnd.random()
+        if r < 0.2:
+            c["late_watch"] = True          # nobody attaches a callback until after the loss
+        elif r < 0.35:
+            cancels.append(i)               # the caller gives up on it (timeout / cancel) before the loss
     post = rnd.choice([0, 0, 1, 1, 2, 2, 3, 5])
     for j in range(post):
         perline = rnd.random() < 0.3
@@ -61,7 +71,7 @@ def gen_case(rnd, boot_in_run=False, max_cmds=6):
         if rnd.random() < 0.3:
             when = ("fire", rnd.randrange(0, n + j))      # re-entrant from an earlier command's (err)back
         cmds.append({"cmd": "POST%d x" % j, "perline": perline, "reply": (250, [("end", "OK")]),
-                     "when": when, "post": True})
+                     "when": when, "post": True, "late_watch": when == ("postloss",) and rnd.random() < 0.2})
     total = sum(len(R.encode(*c["reply"])) for c in cmds if not c.get("post"))
     return {"cmds": cmds, "total": total + (ctl_boot_len() if boot_in_run else 0),
             "boot_in_run": boot_in_run,
@@ -69,6 +79,7 @@ def gen_case(rnd, boot_in_run=False, max_cmds=6):
             "wd_before": rnd.choice([0, 0, 1, 2, 3]), "wd_after": rnd.choice([0, 1, 1, 2, 3]),
             "wd_behaviours": [rnd.choice(["none", "none", "again", "submit"]) for _ in range(3)],
             "local_close": rnd.choice([0, 0, 0, 1]),
+            "cancels": cancels,
             "chunking": gen.chunking(rnd)}
 
 
@@ -147,6 +158,21 @@ def run_case(case, rec):
             rec.count("local_close_before_loss")
             return orig_lose(r)
         s.lose = lose_after_local_close
+    cancelled = set()
+    if case.get("cancels"):
+        inner_lose = s.lose
+
+        def cancel_then_lose(r=None):
+            # caller-side timeouts fire for some still unanswered commands, then the connection goes
+            for i in case["cancels"]:
+                rr = s.commands[i]
+                if rr.deferred is not None and not rr.deferred.called:
+                    rr.cancelled = True
+                    cancelled.add(i)
+                    rec.count("commands_cancelled_by_caller_before_loss")
+                    rr.deferred.cancel()
+            return inner_lose(r)
+        s.lose = cancel_then_lose
     s.run(cut_at=case["cut"], reason=reason)
     if not s.lost:
         s.lose(reason)
@@ -166,6 +192,7 @@ def run_case(case, rec):
             wds.append(s.aud.watch(s.proto.when_disconnected(), "wd-after-%d" % i))
         except Exception as e:
             s.exceptions.append(("when_disconnected", -1, repr(e)))
+    s.watch_late()
     s.finish()
     # consume post_bootstrap's failure (not judged here)
     s.proto.post_bootstrap.addErrback(lambda f: None)
@@ -212,6 +239,11 @@ def run_case(case, rec):
             V("command-fired-twice", {"cmd": r.idx})
             continue
         code = r.spec["reply"][0]
+        if r.cancelled:
+            rec.count("cancelled_commands_audited")
+            continue        # fired exactly once (checked above); its value is the caller's CancelledError
+        if r.spec.get("late_watch"):
+            rec.count("late_watched_commands_audited")
         if answered:
             if (200 <= code < 300) != bool(o.ok):
                 V("answered-command-lost-its-result", {"cmd": r.idx, "got": o.describe()})
